@@ -17,7 +17,7 @@ LEVEL = "exploration"
 RULE = (
     "precedence (complete enumeration, both tiers): for every (subcommand, option) pair of the frozen accept table "
     "(base command + 20 subcommands x log_level/network/input_format/output_format/rpc_*; pairs a subcommand only reads "
-    "from file/default run the file-layer part) x command line {not given, short form, long form} x config.json "
+    "from file/default run the file-layer part) x command line {not given, given (short and long spelling alternating)} x config.json "
     "{no file, file without the key, file with the key} x config.toml {same} x every injective assignment of the "
     "option's candidate values (the default value included) to the layers that carry one; every case with a file is run "
     "twice, without and with unknown keys (foo, update, load_config, subcommand, in_file, decode, nested table) in the "
@@ -538,7 +538,7 @@ def check_precedence(case):
                 return "file" if (layer == "cli" and nm != "cli") else nm
         if scen.cls(DEFAULT[opt]) == obs:
             return "default"
-        return obs if obs in ("no-output", "unrecognised", "unset", "no-call") else "other-value"
+        return "other"  # a value of no layer, or no readable output at all (the detail says which)
 
     clean_ok = None
     for unknown in (False, True) if has_file else (False,):
@@ -589,13 +589,19 @@ FILE_STATES = ("no-file", "no-key", "v")
 def enumerate_precedence(tier):
     for sub, opt, on_cli in _pairs():
         cands = candidates(sub, opt)
-        cli_states = (None, "short", "long") if on_cli else (None,)
-        for form in cli_states:
+        n_cli = 0
+        for given in (False, True) if on_cli else (False,):
             for js in FILE_STATES:
                 for tm in FILE_STATES:
-                    slots = [s for s, on in (("cli", form is not None), ("json", js == "v"), ("toml", tm == "v")) if on]
+                    n_cli += 1  # shift the short/long alternation between layer combinations
+                    slots = [s for s, on in (("cli", given), ("json", js == "v"), ("toml", tm == "v")) if on]
                     for vals in itertools.permutations(cands, len(slots)):
                         a = dict(zip(slots, vals))
+                        form = None
+                        if given:
+                            # both spellings of the flag are exercised on every pair, alternating over the enumeration
+                            form = ("short", "long")[n_cli % 2]
+                            n_cli += 1
                         yield {
                             "sub": sub,
                             "opt": opt,
@@ -760,6 +766,7 @@ def check_text(case):
 
 
 NEWLINES = ["", "\n", "\n\n", "\r\n", "\n\r\n"]
+FORMAT_PAIRS = [(a, b) for a in conv.FORMATS for b in conv.FORMATS]
 
 
 @st.composite
@@ -780,12 +787,13 @@ def conversion_cases(draw):
             data = draw(st.binary(min_size=64, max_size=64))
         else:
             data = draw(st.binary(max_size=64))
+        pair = draw(st.sampled_from(FORMAT_PAIRS))
         return {
             "mode": "bytes",
             "kind": kind,
             "data": hx(data),
-            "a": draw(st.sampled_from(conv.FORMATS)),
-            "b": draw(st.sampled_from(conv.FORMATS)),
+            "a": pair[0],
+            "b": pair[1],
         }
     fmt = draw(st.sampled_from(["hex", "bin"]))
     unit, maxd = (2, 128) if fmt == "hex" else (8, 512)
@@ -822,7 +830,7 @@ def targets(tier):
             "conversion",
             check_conversion,
             strategy=lambda tier: conversion_cases(),
-            budget={"quick": 6400, "thorough": 160000},
+            budget={"quick": 4800, "thorough": 160000},
             required=[
                 "nt:empty",
                 "nt:leading-zero-byte",
